@@ -147,7 +147,9 @@ CHECKS["C13"] = dict(
           "one entry per configuration of every supported command whose file exists, with `file` and every -I/-isystem "
           "directory resolved against the entry's directory (itself relative to the root when not absolute), one warning "
           "per skipped entry, never an exception for any spelling, later entries unaffected; CompileCommand.is_supported "
-          "is proved for the arguments form and CompileCommand.arguments for both forms (shlex.split uninterpreted). "
+          "is proved for the arguments form and CompileCommand.arguments for both forms (shlex.split uninterpreted); "
+          "CompileCommand.from_json with __init__ inlined is proved to store each JSON member in its own field (None when "
+          "absent) and to raise ValueError iff neither arguments nor command is given (JSON values opaque). "
           "Three defects found this way were fixed in /repo."),
     design_ref="DESIGN.md section 5 C13, section 9",
     note=COMMON_NOTE + "A4 os.path functions uninterpreted; from_file / ArgumentParser.parse_args opaque; DEBUG logging disabled; the `command` string form (shlex) only in the bounded native run.",
